@@ -87,6 +87,19 @@ prop("C08", "exploration",
      [{"test": "TestC08", "quick": {"checks": 4000, "shards": 2, "timeout": 600},
        "thorough": {"checks": 40000, "shards": 16, "timeout": 3000}}])
 
+prop("C05", "exploration",
+     "cases = scripted call trees (budget 7 frames, all call kinds, creates, re-entrancy, 35% empty calldata, 40% value "
+     "transfers, 1-3 invocations with join points toggled per invocation) x real WASM Aspect doubles (no-op / trap / revert) "
+     "bound to a generated subset of contracts on pre and/or post join point (0-2 each) x provider failures at generated "
+     "lookups. Oracle over the merged event log (debug tracer + provider-lookup log + AspectLogger): per Call-path frame with "
+     "code, not a precompile, join points on: exactly one pre lookup for that contract before its first step, exactly one "
+     "post lookup after its last step (none if pre failed, and then no step at all and the call reports failure); none "
+     "otherwise; payload of every Aspect execution (from, to, data, value, gas, call-tree index; post: return data, error "
+     "text, gas left by the callee's last instruction) equals that frame's; a bound no-op Aspect must actually run. "
+     "Non-trivial = >= 2 firings with a bound Aspect and (empty calldata or value or a failing pre join point).",
+     [{"test": "TestC05", "quick": {"checks": 700, "shards": 4, "timeout": 900},
+       "thorough": {"checks": 5000, "shards": 16, "timeout": 3000}}])
+
 # ---------------------------------------------------------------------------
 # Text for MANIFEST.json (gen_manifest.py)
 
@@ -111,6 +124,15 @@ MANIFEST_TEXT = {
         "level_note": "Trusted: upstream core/vm as oracle; the recorder copies (gas, cost) at CaptureState/CaptureFault, "
                       "CaptureEnter/Exit, CaptureStart/End.",
         "technique": "property-based differential testing of step-level gas with generated gas-limit sweeps (rapid)",
+    },
+    "C05": {
+        "level_text": "Property-based testing of history invariants over the merged event log of generated call trees with real "
+                      "WASM Aspects bound (through the real djpm/aspect-runtime path) and injected provider failures.",
+        "design_ref": "DESIGN.md section 4, C05",
+        "level_note": "Read as: the Call entry point (top-level Call and the CALL opcode) - the only frames the call tree records; "
+                      "join points on CALLCODE/DELEGATECALL/STATICCALL/CREATE frames are neither required nor forbidden. "
+                      "Payloads are only observable where an Aspect is bound; elsewhere the provider-lookup log is checked.",
+        "technique": "property-based testing with history invariants over an event log; real WASM aspect doubles (rapid)",
     },
     "C07": {
         "level_text": "Property-based testing of a structural invariant over generated executions: the recorded call tree is "
